@@ -26,7 +26,8 @@ RULE = ("scripts = per-iteration sequences of queries. exhaustive over the alpha
         "(<= 3 queries per iteration, 0..6 items with repeats) over the full alphabet (index, index0, revindex0, first, "
         "cycle incl. no arguments, changed(const), depth, depth0); each script driven on LoopContext x {list, tuple, "
         "iterator, generator} and AsyncLoopContext x {list, tuple, iterator, generator, async generator}; a sample "
-        "rendered through compiled templates (sync/async, loop filter, else, depth), through templates with loop "
+        "rendered through compiled templates (sync/async, loop filter, else, depth), through nested loops whose outer "
+        "loop variable is mentioned only in the inner loop's iterable / filter test / else branch, through templates with loop "
         "controls (continue / break after the queries of random iterations, or unconditionally in a body that never "
         "mentions `loop`; with else and loop filter) and recursive loops over random forests. distinct = (iterable kind, items, script); non-trivial = an unsized iterable with a look-ahead query "
         "before a length query (or the reverse) in one iteration.")
@@ -196,6 +197,18 @@ def template_source(script, flt):
     if branches:
         body += "{% endif %}"
     return "{% for x in xs" + FILTERS[flt] + " %}{{ x }}:" + body + "|{% else %}ELSE{% endfor %}"
+
+
+def nested_template_source(qs, place, flt):
+    """outer loop whose body mentions `loop` only inside an inner for: in its iterable, its test or its else"""
+    if place == "iter":
+        inner = "{% for c in [" + ", ".join(TQ[q] for q in qs) + "] %}{{ c }};{% endfor %}"
+    elif place == "else":
+        inner = "{% for c in [] %}{% else %}" + "".join("{{ %s }};" % TQ[q] for q in qs) + "{% endfor %}"
+    else:
+        inner = "".join("{% for c in ['bT'] if " + ("loop.first" if q == "F" else "loop.last") + " %}{{ c }}{% else %}bF{% endfor %};"
+                        for q in qs)
+    return "{% for x in xs" + FILTERS[flt] + " %}{{ x }}:" + inner + "|{% else %}ELSE{% endfor %}"
 
 
 CTL_TAG = {"C": "{% continue %}", "B": "{% break %}"}
@@ -412,6 +425,47 @@ def run(ctx):
         else:
             ctx.validated()
 
+    # ---- nested loops: the OUTER loop variable referenced only from the header (iterable), the filter test or
+    #      the else branch of an inner loop (extended-loop detection must look there); same queries every iteration
+    ncases = []
+    for j in range(ctx.size(900, 9000)):
+        n = ctx.rng.randint(0, 5)
+        xs = [ctx.rng.randint(1, 3) for _ in range(n)]
+        place = ("iter", "else", "test")[j % 3]
+        if place == "test":
+            qs = [ctx.rng.choice(["F", "T"]) for _ in range(ctx.rng.randint(1, 2))]
+        else:
+            qs = [ctx.rng.choice([q for q in FULL if q != "Y0"]) for _ in range(ctx.rng.randint(1, 3))]
+        flt = ctx.rng.choice(["-", "-", "-", "o", "e"])
+        mode = "async" if (j // 3) % 2 else "sync"
+        kind = ctx.rng.choice(["list", "tuple", "iter", "gen"] + (["agen"] if mode == "async" else []))
+        ncases.append({"via": "nested/" + mode, "iterable": kind, "items": xs, "script": [qs] * max(n, 1), "filter": flt,
+                       "place": place, "depth0": 0})
+    nout = ctx.driver("loop", [line_L("U" if c["filter"] != "-" else SIZED[c["iterable"]], c["filter"], 0, c["items"], c["script"])
+                               for c in ncases])
+    for c, ln in zip(ncases, nout):
+        m, s = ln[2:].split(" S ", 1)
+        mode = c["via"].split("/")[1]
+        src = nested_template_source(c["script"][0], c["place"], c["filter"])
+        try:
+            t = envs[mode].from_string(src)
+            data = MAKE[c["iterable"]](c["items"])
+            real = asyncio.run(t.render_async(xs=data)) if mode == "async" else t.render(xs=data)
+            real = norm_template_output(real.replace(";|", "|"))
+        except Exception as e:  # noqa
+            real = "X:" + type(e).__name__ + ":" + str(e)[:60]
+        c2 = dict(c, template=src)
+        ctx.case(key=("n", mode, c["iterable"], c["filter"], c["place"], tuple(c["items"]), tuple(c["script"][0])) if c["items"] else None)
+        ctx.count("nested_" + c["place"] + "_" + mode)
+        if real != s:
+            ctx.model_mismatch("K-rt nested loop (outer loop variable used in the inner loop's " + c["place"] + ")", c2, m, real,
+                               f"documented loop variable gives {s!r}, template renders {real!r} ({first_diff(s, real)})",
+                               f"outer loop variable wrong when used only in an inner loop's {c['place']} (template/{mode})")
+        elif real != m:
+            ctx.model_mismatch("K-rt nested loop", c2, m, real, None)
+        else:
+            ctx.validated()
+
     # ---- loop controls (jinja2.ext.loopcontrols): continue / break at random positions, with else and loop filter
     lc_envs = {}
     for mode in ("sync", "async"):
@@ -518,7 +572,10 @@ def replay(ctx, data):
         return run(ctx)
     flt = case.get("filter", "-")
     k = "U" if flt != "-" else SIZED[case["iterable"]]
-    ln = ctx.driver("loop", [line_L(k, flt, case["depth0"], case["items"], case["script"])])[0]
+    line = line_L(k, flt, case["depth0"], case["items"], case["script"])
+    if via.startswith("loopcontrols/"):
+        line += " " + (",".join(case["ctls"]) if case["ctls"] else "-")
+    ln = ctx.driver("loop", [line])[0]
     m, s = ln[2:].split(" S ", 1)
     if via == "LoopContext":
         real = drive_sync(cn, LoopContext, Undefined, case["iterable"], case["items"], case["script"], case["depth0"])
@@ -526,10 +583,20 @@ def replay(ctx, data):
         real = asyncio.run(drive_async(cn, AsyncLoopContext, Undefined, case["iterable"], case["items"], case["script"], case["depth0"]))
     else:
         mode = via.split("/")[1]
-        t = envs[mode].from_string(template_source(case["script"], flt))
+        if via.startswith("loopcontrols/"):
+            env = jinja2.Environment(enable_async=(mode == "async"), extensions=["jinja2.ext.loopcontrols"])
+            env.filters["a"], env.filters["it"] = cn.a, cn.item
+            src, norm = template_source_ctl(case["script"], case["ctls"], flt, case.get("uniform")), norm_ctl_output
+        elif via.startswith("nested/"):
+            env, src = envs[mode], nested_template_source(case["script"][0], case["place"], flt)
+            norm = lambda o: norm_template_output(o.replace(";|", "|"))  # noqa
+        else:
+            env, src, norm = envs[mode], template_source(case["script"], flt), norm_template_output
+        print("template:", src)
+        t = env.from_string(src)
         dat = MAKE[case["iterable"]](case["items"])
         try:
-            real = norm_template_output(asyncio.run(t.render_async(xs=dat)) if mode == "async" else t.render(xs=dat))
+            real = norm(asyncio.run(t.render_async(xs=dat)) if mode == "async" else t.render(xs=dat))
         except Exception as e:  # noqa
             real = "X:" + type(e).__name__ + ":" + str(e)[:60]
     print("spec :", s, "\nmodel:", m, "\nimpl :", real)
